@@ -774,3 +774,56 @@ def r13_14_guard_field_is_published_last(ctx: Ctx) -> RuleResult:
             later = [a for a in attrs[attrs.index(guard) + 1:] if a != guard]
             rr.fail(f.qual, f"`{guard}` (tested without the lock) is stored before {later}: a concurrent reader that sees it set uses fields that are not initialised yet", ctx.loc(f, stores[attrs.index(guard)][1]))
     return rr
+
+
+# ------------------------------------------------------------------------------------------- R13.15 built objects do not alias the builder
+
+
+@rule("C13")
+def r13_15_built_objects_do_not_alias_builder_state(ctx: Ctx) -> RuleResult:
+    """A builder keeps growing its lists through add(); what build() returns must not share them.  Whenever a class hands one of
+    the collections it mutates in other methods to a constructor of a repo class, the receiving constructor must store a copy
+    (list(...) / tuple(...) / .copy() / [*...]) or the argument must be copied at the call - otherwise a later add() on the builder
+    changes the behaviour of a pattern that was already built and possibly shared (its answers then depend on what happened to
+    the builder afterwards)."""
+    rr = RuleResult("R13.15", "objects constructed from a collection that their creator keeps mutating store a copy of it", min_instances=2)
+    M = ctx.M
+    mut_ops = ("append", "extend", "insert", "add", "update", "pop", "remove", "clear", "setdefault")
+    for lst in M.classes.values():
+        for c in lst:
+            if not c.mod.rel.startswith("pyoda_time/") or "_compatibility" in c.mod.rel:
+                continue
+            mutated: set[str] = set()
+            for g in c.methods.values():
+                if isinstance(g.node, ast.Lambda) or g.name in ("__init__", "_ctor", "__new__"):
+                    continue
+                for n in own_nodes(g.node):
+                    if isinstance(n, ast.Call) and isinstance(n.func, ast.Attribute) and n.func.attr in mut_ops and isinstance(n.func.value, ast.Attribute) and isinstance(n.func.value.value, ast.Name) and n.func.value.value.id == "self":
+                        mutated.add(n.func.value.attr)
+            if not mutated:
+                continue
+            for g in c.methods.values():
+                if isinstance(g.node, ast.Lambda):
+                    continue
+                for n in own_nodes(g.node):
+                    if not isinstance(n, ast.Call):
+                        continue
+                    tg, how = ctx.R.callees(n, g, count=False)
+                    ctor = next((t for t in tg if t.name in ("__init__", "_ctor") or t.name.endswith("__ctor")), None) if how == "resolved" else None
+                    if ctor is None:
+                        continue
+                    from ..kit import bind_args
+
+                    for pname, a in bind_args(n, ctor).items():
+                        if not (isinstance(a, ast.Attribute) and isinstance(a.value, ast.Name) and a.value.id == "self" and a.attr in mutated):
+                            continue
+                        rr.inst()
+                        stores = [s for s in own_nodes(ctor.node) if isinstance(s, (ast.Assign, ast.AnnAssign)) and s.value is not None and any(isinstance(x, ast.Name) and x.id == pname for x in ast.walk(s.value))]
+                        copied = bool(stores) and all(not (isinstance(s.value, ast.Name)) for s in stores) and all(
+                            (isinstance(s.value, ast.Call) and (unparse(s.value.func) in ("list", "tuple", "dict", "set", "frozenset", "sorted") or unparse(s.value.func).endswith(".copy"))) or isinstance(s.value, (ast.List, ast.Tuple, ast.ListComp, ast.IfExp))
+                            for s in stores)
+                        if copied:
+                            rr.ok({"creator": g.qual, "collection": a.attr, "receiver": ctor.qual})
+                        else:
+                            rr.fail(ctor.qual, f"stores the `{pname}` it is given as it is, and {g.qual} passes its own `{a.attr}`, which {c.name} keeps mutating: the built object changes when the builder is used again", ctx.loc(ctor))
+    return rr
